@@ -147,6 +147,32 @@ def programs(tier):
                                   println(Call("pair_show", va[0], vb[0], targs=[ta, tb])), println(Call("pair_show", vb[0], va[0], targs=[tb, ta]))])
     out += under_programs(tier, cat)
     out += shared_names_programs()
+    out += closed_field_programs()
+    return out
+
+
+def closed_field_programs():
+    """A generic struct / enum one of whose fields does not mention its parameter but is itself an instance of another generic type
+    (directly, under Vec, in a tuple, under Ref): every instance of the outer type needs that field specialised too."""
+    from gast import TextProgram
+    out = []
+    hd = "enum Opt[T] { Non, Som(T) }\nstruct Bx[T] { v: T }\nfn so(o: Opt[int32]) -> string { match o { Opt::Non => \"non\", Opt::Som(k) => int32_to_string(k) } }\nfn fst(t: (Opt[int32], bool)) -> string { so(t.0) }\n"
+    cases = {
+        "direct": ("struct Tg[T] { val: T, tag: Opt[int32] }", "Tg { val: {V}, tag: Opt::Som(4) }", "so(x.tag)"),
+        "struct-instance": ("struct Tg[T] { val: T, tag: Bx[int32] }", "Tg { val: {V}, tag: Bx { v: 4 } }", "int32_to_string(x.tag.v)"),
+        "under-vec": ("struct Tg[T] { val: T, tag: Vec[Opt[int32]] }", "Tg { val: {V}, tag: vec_push(vec_new(), Opt::Som(4)) }", "so(vec_get(x.tag, 0))"),
+        "in-tuple": ("struct Tg[T] { val: T, tag: (Opt[int32], bool) }", "Tg { val: {V}, tag: (Opt::Som(4), true) }", "fst(x.tag)"),
+        "under-ref": ("struct Tg[T] { val: T, tag: Ref[Opt[int32]] }", "Tg { val: {V}, tag: ref(Opt::Som(4)) }", "so(ref_get(x.tag))"),
+        "enum-payload": ("enum Tg[T] { K(T, Opt[int32]), Z }", "Tg::K({V}, Opt::Som(4))", "match x { Tg::K(_, o) => so(o), Tg::Z => \"z\" }"),
+    }
+    for name, (decl, mk, use) in cases.items():
+        stmts = ""
+        for i, (ty, v) in enumerate((("int32", "1"), ("string", '"s"'), ("bool", "true"))):
+            stmts += f"    let x: Tg[{ty}] = " + mk.replace("{V}", v) + f";\n    let r{i}: string = {use};\n".replace("x.", "x.").replace(" x ", " x ")
+            stmts = stmts.replace("let x:", f"let x{i}:").replace("(x.", f"(x{i}.").replace("= x.", f"= x{i}.").replace("match x ", f"match x{i} ")
+        text = hd + decl + "\nfn main() -> unit {\n" + stmts + "    let _ = string_println(r0 + r1 + r2);\n    ()\n}\n"
+        out.append({"prog": TextProgram("c07_closedfield_" + name.replace("-", "_"), text, ["444"]), "family": "c07-closed-field",
+                    "ident": f"c07:field-is-a-closed-instance-of-another-generic:{name}", "expect": "accept"})
     return out
 
 
